@@ -47,8 +47,11 @@ var c14BaseSpecs = map[string]string{
 	"file":    "file:///C:/d/f?x",
 	"opaque":  "mailto:x y?q#f",
 	"ipv4":    "http://1.2.3.4/p/",
+	// a URL whose parameter list was materialised (single-threaded) BEFORE it is shared: from then on
+	// SearchParams() and the list's accessors are reads as well
+	"listed": "http://h/p?b=2&a=1&b=%41#f",
 }
-var c14BaseNames = []string{"special", "file", "opaque", "ipv4"}
+var c14BaseNames = []string{"special", "file", "opaque", "ipv4", "listed"}
 
 var c14Refs = []string{"", "#g", "?z=1", "x/../y", "/abs", "//h2/x", "..", "C|/w", "http://é.test/a b", "file:d/e", "http:d/e"}
 
@@ -67,6 +70,9 @@ func buildEnv(names []string) *c14Env {
 				u, err := url.Parse(c14BaseSpecs[bn])
 				if err != nil {
 					panic(err)
+				}
+				if bn == "listed" {
+					_ = u.SearchParams()
 				}
 				e.bases[bn] = u
 			}
@@ -136,7 +142,17 @@ func init() {
 	}
 	for _, bn := range c14BaseNames {
 		bn := bn
-		for _, r := range c14Refs {
+		refs := c14Refs
+		if bn == "listed" {
+			refs = []string{"", "?z=1", "x/../y", "//h2/x"}
+			add("base[listed].list-reads", func(e *c14Env) string {
+				sp := e.bases[bn].SearchParams()
+				// (Iterate hands out pointers to the pairs and writes the list back to the URL afterwards: it is a
+				// mutator by design, like SearchParams() on a URL that has no list yet, and not used here)
+				return fmt.Sprintf("%s|%q|%q|%v", sp.String(), sp.Get("b"), sp.GetAll("b"), sp.Has("a"))
+			})
+		}
+		for _, r := range refs {
 			r := r
 			add("base["+bn+"].Parse("+r+")", func(e *c14Env) string { return resOf(e.bases[bn].Parse(r)) })
 		}
